@@ -351,7 +351,77 @@ def grid_cases(tier, seed):
                    "spell": None if coll == "list" else [n + pooling, 3, 1, 4, 2], "subclass": "namespace" if coll in ("list", "generator") and n > 1 else None}
 
 
+# ---- two threads, one HashClient -------------------------------------------------------------------------------------
+
+def _ring_sched(funcs, preempt, first=0):
+    from vlib import sched
+    import pymemcache.client.rendezvous as RZ
+    fn = RZ.__file__
+    sc = sched.Scheduler(sched.preemption_chooser(preempt), lambda code: code.co_filename == fn, max_steps=200000)
+    sc.run(funcs, first=first)
+    return sc
+
+
+T_SERVERS = [("h0", 11211), ("h1", 11211), ("h2", 11211)]
+
+
+def _two_thread_run(case, preempt):
+    env = Env(addrs=T_SERVERS)
+    names = [node_name(a) for a in T_SERVERS]
+    with virtual_time(env.clock):
+        hc = HashClient(list(T_SERVERS), socket_module=env.net, use_pooling=True, default_noreply=False)
+        k1, k2, k3 = case["keys"]
+        out = {}
+
+        def t0():
+            out["set_many"] = hc.set_many({k1: b"one", k3: b"three"})
+            out["get1"] = hc.get(k1)
+
+        def t1():
+            out["set2"] = hc.set(k2, b"two")
+            out["get_many"] = hc.get_many([k2, k1])
+        sc = _ring_sched([t0, t1], preempt, first=case.get("first", 0))
+        stored = {}
+        for n, srv in zip(names, env.servers):
+            for k in srv.store:
+                stored.setdefault(k.decode(), []).append(n)
+        after = hc.get_many([k1, k2, k3])
+        hc.close()
+    return sc, out, stored, after, names
+
+
+def two_thread_cases(tier, seed):
+    for ki, keys in enumerate((["user:0", "user:1", "user:2"], ["alpha", "beta", "gamma"], ["k", "k" * 30, "7"])):
+        total = _two_thread_run({"keys": keys}, [])[0].steps
+        for p in range(1, total + 1):
+            yield {"keys": keys, "preempt": [p], "first": (p + ki) % 2}
+        for p in range(1, total + 1, 3 if tier == "thorough" else 7):
+            for q in range(p + 2, total + 1, 5 if tier == "thorough" else 11):
+                yield {"keys": keys, "preempt": [p, q], "first": 0}
+
+
+def check_two_threads(case):
+    """two threads share one HashClient(use_pooling=True) and are pre-empted inside the ring's lookup code: every key is stored
+    on the server the placement rule gives it, by the single-key and by the multi-key command alike, and is found again"""
+    sc, out, stored, after, names = _two_thread_run(case, case["preempt"])
+    k1, k2, k3 = case["keys"]
+    desc = "thread 0: set_many({%r, %r}), get(%r); thread 1: set(%r), get_many([%r, %r]); one HashClient over %r, pre-emption at step(s) %r of the ring's code (thread %d starts)" % (
+        k1, k3, k1, k2, k2, k1, names, case["preempt"], case.get("first", 0))
+    if sc.errors:
+        raise Violation(["two-threads", "raises", type(list(sc.errors.values())[0]).__name__], "a call raised %r: %s" % (sc.errors, desc))
+    if sc.deadlock or sc.overrun:
+        raise Violation(["two-threads", "stuck"], "the calls did not finish: %s" % desc)
+    for k in (k1, k2, k3):
+        want = refhash.place(names, k)
+        if stored.get(k) != [want]:
+            raise Violation(["two-threads", "placement"], "%r is stored on %r, placement assigns it to %r: %s" % (k, stored.get(k), want, desc))
+    if after != {k1: b"one", k2: b"two", k3: b"three"} or out.get("set_many") != [] or out.get("set2") is not True:
+        raise Violation(["two-threads", "not-found-again"], "afterwards get_many gives %r (set_many returned %r, set %r): %s" % (after, out.get("set_many"), out.get("set2"), desc))
+    return sc.switches > 0, ["two-threads", "switches=%d" % min(sc.switches, 3)]
+
+
 PARTS = [
+    Part("two-threads-one-client", "enum", check_two_threads, cases=two_thread_cases, shards={"quick": 4, "thorough": 8}, exhaustive=True),
     Part("grid", "enum", check, cases=grid_cases, shards={"quick": 4, "thorough": 8}),
     Part("random", "hyp", check, strategy=case_strategy,
          examples={"quick": 250, "thorough": 8000}, shards={"quick": 6, "thorough": 16}),
